@@ -82,7 +82,7 @@ class ChangeDetector(BaseDetector):
             * ``"ilocs"`` - integer locations of the changepoints.
         """
         is_changepoint = y_dense["labels"].diff().abs() > 0
-        changepoints = y_dense.index[is_changepoint]
+        changepoints = np.flatnonzero(is_changepoint.to_numpy())
         return ChangeDetector._format_sparse_output(changepoints)
 
     @staticmethod
